@@ -310,6 +310,10 @@ func (f *file) writeBlobAt(op string, p blob.Blob, off int64) (n int, err error)
 	if off < 0 {
 		return 0, &hackpadfs.PathError{Op: op, Path: f.path, Err: errors.New("negative offset")}
 	}
+	if p.Len() == 0 {
+		// nothing to write: in particular, do not grow the file up to the offset
+		return 0, nil
+	}
 
 	endIndex := off + int64(p.Len())
 	if f.currentSize() < endIndex {
